@@ -45,7 +45,7 @@ ASSUMPTIONS = [
     "scheduler calls, starvation counters; private attributes are read for canonicalisation only",
 ]
 MIN = {"quick": {"states": 233000, "nontrivial": 229000, "outcomes": 7},
-       "thorough": {"states": 775000, "nontrivial": 770000, "outcomes": 7, "shards_searched_to_closure": 28}}
+       "thorough": {"states": 1200000, "nontrivial": 1200000, "outcomes": 7, "shards_searched_to_closure": 28}}
 
 BEH6 = ("V", "D", "S", "R", "Ds", "Df")
 # Dc: yields a Deferred that has already fired but whose chain is suspended on an unfired inner Deferred (called, paused by
